@@ -164,6 +164,21 @@ Proof. exact C20.Proofs.no_trap_cmap12_one_group. Qed.
 Theorem no_trap_hmtx_ix : forall n m gid, hmtx_advance_ix n gid <> None /\ hmtx_lsb_ix n m gid <> None.
 Proof. exact C20.Proofs.no_trap_hmtx_ix. Qed.
 
+(* ---- sparse bit set decoder (IFT codepoint sets, read-fonts sparse_bit_set.rs) ---- *)
+Theorem no_trap_sbs_node_end : forall nstart node_size bias maxv,
+  0 <= nstart -> 1 <= node_size -> nstart + node_size <= 18446744073709551615 ->
+  sbs_fill_range nstart node_size bias maxv <> None.
+Proof. exact no_trap_sbs_fill_range. Qed.
+Theorem no_trap_sbs_leaf_value : forall nstart bit bias maxv, sbs_leaf_value nstart bit bias maxv <> None.
+Proof. exact C20.Proofs.no_trap_sbs_leaf_value. Qed.
+(* every filled node of every tree the decoder accepts (bf^height <= 2^63 covers BF 2/4/8/32 at their
+   maximum heights 31/16/11/7), any bias, any limit *)
+Theorem no_trap_sbs_filled_node : forall bf height bias maxv path,
+  1 <= bf -> 1 <= height <= 4294967295 -> bf ^ height <= 9223372036854775808 ->
+  Z.of_nat (length path) < height -> Forall (fun i => 0 <= i < bf) path ->
+  sbs_filled_node bf height bias maxv path <> None.
+Proof. exact C20.Proofs.no_trap_sbs_filled_node. Qed.
+
 Print Assumptions no_trap_floor.
 Print Assumptions no_trap_round.
 Print Assumptions no_trap_ceil.
@@ -224,3 +239,6 @@ Print Assumptions no_trap_delta_shift.
 Print Assumptions no_trap_delta_apply_scalar.
 Print Assumptions no_trap_cmap12_one_group.
 Print Assumptions no_trap_hmtx_ix.
+Print Assumptions no_trap_sbs_node_end.
+Print Assumptions no_trap_sbs_leaf_value.
+Print Assumptions no_trap_sbs_filled_node.
